@@ -24,6 +24,11 @@ CHECKS["C06"] = dict(engine="framing_in", technique="TLA+ specification spec/Fra
    note="B = 16 (the smallest buffer bufio allows); 11 (quick) / 14 (thorough) streams of up to 3 packets; <= 2 / 3 cuts; topics of one byte. Pauses inside CONNACK or inside a packet header are not judged (the client documents one deadline for the 4-byte CONNACK).",
    ref="6 (C06)")
 
+CHECKS["C19"] = dict(engine="fsstore", technique="TLC model checking of spec/FsStore.tla (system-call sequences with Kill and errors) + strace-traced call sequences of the real FileSystem store validated against it + kill / error injection at every system call judged by TLC (FsStoreJudge.tla)",
+   text="FsStore.tla specifies Save and Delete as sequences of system calls over a directory with a Kill between any two calls and inside the data write, and errors at any call; TLC checks old-or-new, list-implies-loadable, flushed-before-visible and failed-save-keeps-old in every state. Binding: the real store (cmd/fsprobe, built from /repo) runs each operation under strace; the observed call sequence must be a behaviour of the specification (spool file created with O_CREAT|O_TRUNC, data, fsync before close and rename, never a write to the key in place); then the process is killed at the entry of each of those calls (strace signal injection), the data write is cut short with a file-size limit (with and without a kill right after), and errors (EACCES, ENOSPC, EIO, EXDEV) are injected at each call; a fresh process reports Load and List, and TLC judges the outcome against the C19 predicates. Four goroutines exercise distinct keys concurrently.",
+   note="Trusted: strace tracing/injection, the kernel's rename and fsync semantics; real power loss is not simulated. Sizes 12..5000 bytes (quick), up to 2 MiB (thorough). Concurrent Save of the same key is outside the property.",
+   ref="6 (C19)")
+
 CLIENT_TEXT = ("spec/MqttClient.tla models the client at the grain of its blocking points (one move per segment between two gates; semaphores as "
   "variables; reader, persisted publishers, Close, the abort and termCallbacks goroutines, a conforming broker, fault budgets). TLC checks the design "
   "invariants on bounded instances and exports the stimulus of its transitions; the Go harness replays each behaviour against the real code parked at the "
